@@ -16,6 +16,9 @@ NAMING = {
     "propcase": ["Node", "Edge", "Graph", "Leaf", "Tree", "Root"],  # property names equal the schema name up to case
     # the cycle tracker keys decisions on substrings of schema names ('Item', 'Property', 'Children'): use such names too
     "itemish": ["Order", "LineItem", "Children", "ChildrenItem", "OrderProperty", "ItemList"],
+    # declared names that class-name derivation REWRITES (acronym run, snake_case, digit group, punctuation): the registry of
+    # parsed schemas is keyed by derived names while references spell the declared one
+    "rewritten": ["HTTPAlpha", "beta_node", "GammaV2", "XMLDelta.v1", "epsi-lon", "ZETA"],
 }
 
 
